@@ -9,6 +9,14 @@ W115 == <<1, 1, 5>>
 Own1 == {1}
 Own12 == {1, 2}
 NoChoices == <<>>
+\* validator-set changes (G2): other weights and a PERMUTED generator list that keeps the generators under test.
+\* ChoiceA (with W133 / Own1): 2 and 3 still reach the threshold 5 of 7 together; 1 moves from position 1 to position 2.
+ChoiceA == << [pcT |-> 5, certT |-> 5, w |-> <<1, 2, 4>>, gens |-> <<3, 1, 2>>] >>
+\* ChoiceB (with W115 / Own12): the two generators under test swap their positions (a generator that looks its slot up
+\* in the list of the wrong height generates with the OTHER key it holds)
+ChoiceB == << [pcT |-> 5, certT |-> 5, w |-> <<1, 2, 5>>, gens |-> <<2, 1, 3>>] >>
+Out4 == {"ok", "vf", "vp", "xf"}
+Out7 == {"ok", "vf", "vp", "xf", "xe", "ve", "xr"}
 NoMutations == {}
 NoGiven == <<>>
 GView == <<chain, vstack, fin, ginfo, signed, lost, ever, abandoned, NCrash, NSwitch, NRestarts, Len(script)>>
